@@ -169,7 +169,9 @@ def _iter_rows_with_delimiter(filepath, delimiter, has_header):
     Yields:
         List of column values for each row
     """
-    with open(filepath, 'r', encoding='utf-8-sig') as f:
+    # errors='replace': a byte that is not UTF-8 (a Latin-1 export, say) garbles one character of
+    # one cell; it must not make the whole file unreadable
+    with open(filepath, 'r', encoding='utf-8-sig', errors='replace') as f:
         if delimiter and delimiter == 'tab':
             delimiter = '\t'
         if delimiter and delimiter.startswith('regex:'):
